@@ -9,7 +9,9 @@ EXTRA = {"C02_r1b": ["C04"], "C08_r1a": ["C04"], "C08_r1b": ["C09"], "C09_r1b": 
          "C04_r1b": ["C09"], "C05_r1b": ["C09"], "C12_r1b": ["C13"], "C01_r2b": ["C02", "C04"], "C02_r2a": ["C01", "C04"], "C07_r2a": ["C03"], "C06_r1b": ["C11"], "C16_r2b": ["C15"], "C18_r2b": ["C16"], "C10_r2a": ["C09"], "C09_r2a": ["C04", "C05"], "C11_r2b": ["C06"],
          "C12_r3a": ["C04", "C01"], "C12_r3b": ["C04"], "C14_r3a": ["C09", "C13"], "C14_r3b": ["C07", "C09"], "C15_r3a": ["C16"], "C15_r3b": ["C05"], "C17_r3a": ["C02"], "C17_r3b": ["C13"], "C08_r3a": ["C15", "C16"], "C08_r3b": ["C04", "C12"],
          "C01_r4a": ["C12", "C04"], "C01_r4b": ["C12", "C04"], "C04_r4a": ["C01", "C05"], "C04_r4b": ["C08", "C12"], "C05_r4a": ["C04", "C10"], "C05_r4b": ["C09"],
-         "C06_r4a": ["C11", "C10"], "C06_r4b": ["C11", "C10"], "C09_r4a": ["C04", "C07"], "C09_r4b": ["C05"], "C13_r4a": ["C03"], "C13_r4b": ["C07"]}
+         "C06_r4a": ["C11", "C10"], "C06_r4b": ["C11", "C10"], "C09_r4a": ["C04", "C07"], "C09_r4b": ["C05"], "C13_r4a": ["C03"], "C13_r4b": ["C07"],
+         "C02_r5a": ["C03", "C01"], "C02_r5b": ["C12", "C04"], "C03_r5a": ["C02"], "C03_r5b": ["C11"], "C07_r5a": ["C11"], "C07_r5b": ["C09", "C10"],
+         "C10_r5a": ["C03", "C11", "C01"], "C10_r5b": ["C01", "C06", "C07"], "C11_r5a": ["C13", "C06"], "C11_r5b": ["C03", "C10"], "C16_r5b": ["C07"], "C18_r5a": ["C07"], "C18_r5b": ["C07"]}
 names = sys.argv[1:] or sorted(os.listdir(os.path.join(ROOT, "seeded")))
 for name in names:
     d = os.path.join(ROOT, "seeded", name)
